@@ -243,3 +243,15 @@ package escape
 //@   loop node invariant l2h: hSame(h) && nonNilNodes(h) && wf2(h)
 //@   loop node invariant l2dis: disjointGraphs(g, h)
 //@   loop node invariant ub: forall m *Node :: visited(node, m) ==> g.status[m] >= h.status[m]
+
+// LessEqual(g, h) answers true only if every node of g is a node of h with an at
+// least as escaped status (the status part of the ordering; the edge part is decided
+// through edge masks and is not under contract).
+//@ func EscapeGraph.LessEqual
+//@   property C15
+//@   requires g != nil && h != nil
+//@   ensures status_leq: result0 ==> forall m *Node :: has(g.status, m) ==> has(h.status, m) && g.status[m] <= h.status[m]
+//@   modifies nothing
+//@   loop gEdge invariant fr1: preserved(all)
+//@   loop node invariant fr2: preserved(all)
+//@   loop node invariant leq: forall m *Node :: visited(node, m) ==> has(h.status, m) && g.status[m] <= h.status[m]
